@@ -145,6 +145,21 @@ func check(c Case) (msg, key string) {
 		}
 		os.MkdirAll(filepath.Join(dir, ob), 0o755)
 	}
+	if c.State == "stale-volumes" && c.Format == "par2" {
+		// an older generation of the set - the first file had the same length and first 16 KiB (hence the same file and set
+		// IDs) but another tail - was created with more recovery blocks; its higher-numbered recovery files stay behind
+		old := c.Files[0]
+		old.Seed += 3
+		os.WriteFile(filepath.Join(dir, names[0]), old.Content(S), 0o644)
+		oargs := append(append([]string{}, global...), "c", "-s", strconv.Itoa(c.Slice), "-c", strconv.Itoa(c.N+5), idx)
+		for _, n := range names {
+			oargs = append(oargs, sp(filepath.Join(dir, n)))
+		}
+		if ro := par(cwd, oargs...); ro.code != 0 {
+			return fmt.Sprintf("par %v exited %d on valid inputs: %s", oargs, ro.code, tail(ro.out)), ""
+		}
+		os.WriteFile(filepath.Join(dir, names[0]), orig[names[0]], 0o644)
+	}
 	r := par(cwd, args...)
 	if panicked(r) {
 		return "par create panicked: " + tail(r.out), ""
@@ -235,6 +250,28 @@ func check(c Case) (msg, key string) {
 		n := names[len(names)-1]
 		state[n] = append(append([]byte{}, state[n]...), 0x11, 0x22, 0x33)
 		expectV, expectR = 1, 0
+	case "stale-volumes": // more slices damaged than fresh blocks exist; stale blocks of an older generation (same set ID) lie beside them
+		d := append([]byte{}, state[names[0]]...)
+		for k := 0; k <= c.N; k++ {
+			if o := 16384 + 100 + k*S; o < len(d) {
+				d[o] ^= 0x01
+			}
+		}
+		state[names[0]] = d
+		expectV, expectR = -2, -2
+	case "cut-in-zero-tail": // no recovery file left; the first file lost some of the zero bytes it ends with (its last slice is still found, zero-padded, at the end of file)
+		d := state[names[0]]
+		z := 0
+		for z < len(d) && d[len(d)-1-z] == 0 {
+			z++
+		}
+		if z > 0 {
+			state[names[0]] = append([]byte{}, d[:len(d)-(z+1)/2]...)
+		}
+		for _, v := range vols {
+			os.Remove(filepath.Join(dir, v))
+		}
+		expectV, expectR = 1, 0
 	case "swap":
 		state[names[0]], state[names[1]] = state[names[1]], state[names[0]]
 		expectV, expectR = 1, 0
@@ -290,11 +327,14 @@ func check(c Case) (msg, key string) {
 		os.Remove(filepath.Join(dir, idxName))
 		expectV, expectR = -1, -1
 	}
-	if expectV >= 0 {
+	if c.State == "stale-volumes" {
+		// whether the stale blocks count as usable is not what C20 is about: only the generic rules apply
+		// (no status 0 while a file is damaged, verify after a repair that exited 0 is clean)
+	} else if expectV >= 0 {
 		// derive the expected status from the model instead of from how the state was built
 		// (generated files may share content, so "deleted" slices can still exist elsewhere)
 		avail := c.N
-		if c.State == "noparity-damaged" || c.State == "noparity-intact" || c.State == "all-lost" {
+		if c.State == "noparity-damaged" || c.State == "noparity-intact" || c.State == "all-lost" || c.State == "cut-in-zero-tail" {
 			avail = 0
 		}
 		allIntact := true
@@ -395,7 +435,7 @@ func check(c Case) (msg, key string) {
 	return "", ""
 }
 
-var states2 = []string{"intact", "symlinked-volumes", "dup-volume", "grown-16k", "repairable", "repairable-flip", "relocation", "length-only", "create-obstructed", "swap", "unrepairable", "noparity-damaged", "all-lost", "noparity-intact", "damaged-index", "missing-index", "unknown-ext"}
+var states2 = []string{"intact", "stale-volumes", "cut-in-zero-tail", "symlinked-volumes", "dup-volume", "grown-16k", "repairable", "repairable-flip", "relocation", "length-only", "create-obstructed", "swap", "unrepairable", "noparity-damaged", "all-lost", "noparity-intact", "damaged-index", "missing-index", "unknown-ext"}
 var states1 = []string{"intact", "symlinked-volumes", "grown-16k", "repairable", "repairable-flip", "create-obstructed", "unrepairable", "noparity-damaged", "all-lost", "noparity-intact", "damaged-index", "missing-index", "unknown-ext"}
 
 var usages = [][]string{{}, {"frobnicate"}, {"frobnicate", "set.par2"}, {"v"}, {"verify"}, {"r"}, {"c"}, {"c", "set.par2"}, {"create", "set.par"}, {"-bogus", "v", "set.par2"},
@@ -415,6 +455,15 @@ func mk(format, state string, i int) Case {
 	}
 	if state == "dup-volume" {
 		c.N = 1
+	}
+	if state == "cut-in-zero-tail" && format == "par2" {
+		c.Files[0] = scen.FileSpec{Name: "a.dat", Size: 3*c.Slice - i%2, Kind: "zerotail", Seed: uint64(i + 1)}
+	}
+	if state == "stale-volumes" && format == "par2" {
+		c.Slice = 1024
+		c.Files[0] = scen.FileSpec{Name: "a.dat", Size: 22000 + i%5, Kind: "share16k", Seed: uint64(i)}
+		c.N = 2 + i%2
+		c.Flag = false // -doublecheck would hide nothing here, but the state is about the plain repair
 	}
 	if state == "grown-16k" {
 		c.Files[len(c.Files)-1].Size = 16384
